@@ -183,6 +183,49 @@ func (c *Ctx) RelFile(pos token.Pos) string {
 // LookupFunc resolves "Name" or "Type.Method" (pointer or value receiver) in a
 // package to its object. nil when absent.
 func (c *Ctx) LookupFunc(rel, name string) *types.Func {
+	if f := c.lookupFunc(rel, name); f != nil {
+		return f
+	}
+	// a helper that was renamed and re-identified by its role (see SetAlias)
+	return aliasByCanon[rel+"|"+name]
+}
+
+// funcAlias: repository functions re-identified structurally after a rename,
+// with the canonical name the rules know them by. Renderings (FuncName,
+// CanonName) and LookupFunc use the canonical name, so frozen expectations do
+// not depend on what an unexported helper happens to be called.
+var (
+	funcAlias    = map[*types.Func]string{}
+	aliasByCanon = map[string]*types.Func{}
+)
+
+// SetAlias records that obj plays the role known as canon ("Name" or "Type.Method") in package rel.
+func SetAlias(rel, canon string, obj *types.Func) {
+	if obj == nil {
+		return
+	}
+	bare := canon
+	if i := strings.Index(canon, "."); i >= 0 {
+		bare = canon[i+1:]
+	}
+	funcAlias[obj] = bare
+	aliasByCanon[rel+"|"+canon] = obj
+}
+
+// CanonName: the name a function is known by to the rules (its alias, else its own name).
+func CanonName(f *ssa.Function) string {
+	if f == nil {
+		return ""
+	}
+	if o, ok := f.Object().(*types.Func); ok {
+		if a, has := funcAlias[o]; has {
+			return a
+		}
+	}
+	return f.Name()
+}
+
+func (c *Ctx) lookupFunc(rel, name string) *types.Func {
 	p := c.Pkg(rel)
 	if i := strings.Index(name, "."); i >= 0 {
 		tn, _ := p.Types.Scope().Lookup(name[:i]).(*types.TypeName)
@@ -228,6 +271,9 @@ func FuncName(f *types.Func) string {
 		return "<nil>"
 	}
 	s := f.FullName()
+	if a, has := funcAlias[f]; has && strings.HasSuffix(s, f.Name()) {
+		s = s[:len(s)-len(f.Name())] + a
+	}
 	s = strings.ReplaceAll(s, ModPath+"/", "")
 	s = strings.ReplaceAll(s, ModPath+".", "thriftrw.")
 	return s
@@ -239,6 +285,11 @@ func SSAName(f *ssa.Function) string {
 		return "<nil>"
 	}
 	s := f.String()
+	if o, ok := f.Object().(*types.Func); ok {
+		if a, has := funcAlias[o]; has && strings.HasSuffix(s, f.Name()) {
+			s = s[:len(s)-len(f.Name())] + a
+		}
+	}
 	s = strings.ReplaceAll(s, ModPath+"/", "")
 	s = strings.ReplaceAll(s, ModPath+".", "thriftrw.")
 	return s
